@@ -1,32 +1,24 @@
-import Grexv.Model.Format
+import Grexv.Lemmas.ColorStrip2
 
 /-!
-# C15 — syntax highlighting only adds colour codes (component level)
+# C15 — syntax highlighting only adds colour codes
 
 `Gen.col*` are the SGR parameters generated from src/component.rs.  `stripColor` is the model of
-the stripping regex `ESC \[ (?: \d+;\d+ | 0 ) m` that the code itself uses; the harness strips
-with its own independent stripper.
+the stripping regex `ESC \[ (?: \d+;\d+ | 0 ) m` that the code itself uses (in `convert_expr_to_regex` and in
+`indent_regexp`); the harness strips with its own independent stripper.
+
+Whole pattern (`strip_colored`): for every expression and every combination of the other settings except
+verbose mode, stripping the highlighted text gives exactly the text without highlighting.  Verbose mode
+(indentation computed from the stripped lines) is compared per input.
 -/
 set_option linter.unusedSimpArgs false
 set_option linter.unusedVariables false
 namespace Grexv.Props.C15
-open Grexv
-
-def genCodes : List Str :=
-  [Gen.colBlackOnBrightYellow, Gen.colBrightYellowOnBlack, Gen.colCyanBold, Gen.colGreenBold,
-   Gen.colPurpleBold, Gen.colRedBold, Gen.colWhiteOnBrightBlue, Gen.colYellowBold]
-
-def isAsciiDigit (c : Nat) : Bool := 48 ≤ c && c ≤ 57
-
-/-- `digits ; digits` -/
-def sgrShape (code : Str) : Bool :=
-  let d1 := code.takeWhile isAsciiDigit
-  let r := code.dropWhile isAsciiDigit
-  !d1.isEmpty && r.head? == some 59 && !(r.drop 1).isEmpty && (r.drop 1).all isAsciiDigit
+open Grexv ColorBasic
 
 /-- every colour the printer can emit is a two-parameter SGR sequence: exactly what the stripping
 regex (and any SGR stripper) removes -/
-theorem codes_shape : genCodes.all sgrShape = true := by decide
+theorem codes_shape : genCodes.all sgrShape = true := ColorBasic.codes_shape
 
 /-- without highlighting a component is its plain text -/
 theorem paint_plain (code text : Str) : paint false code text = text := rfl
@@ -35,39 +27,56 @@ theorem paint_plain (code text : Str) : paint false code text = text := rfl
 theorem paint_colored (code text : Str) :
     paint true code text = [27, 91] ++ code ++ [109] ++ text ++ [27, 91, 48, 109] := rfl
 
-theorem digit_member (c : Nat) (h : 48 ≤ c ∧ c ≤ 57) : Spec.perlMember .digit c = true := by
-  obtain ⟨h1, h2⟩ := h
-  have : c = 48 ∨ c = 49 ∨ c = 50 ∨ c = 51 ∨ c = 52 ∨ c = 53 ∨ c = 54 ∨ c = 55 ∨ c = 56 ∨ c = 57 := by omega
-  rcases this with rfl | rfl | rfl | rfl | rfl | rfl | rfl | rfl | rfl | rfl <;> decide +kernel
-
-theorem not_digit_59 : Spec.perlMember .digit 59 = false := by decide +kernel
-theorem not_digit_109 : Spec.perlMember .digit 109 = false := by decide +kernel
-
 /-- **C15 (reset code)** the stripper removes `ESC[0m` -/
-theorem strip_reset (fuel : Nat) (s : Str) : stripColor (fuel + 1) (27 :: 91 :: 48 :: 109 :: s) = stripColor fuel s := by
-  have h48 : Spec.perlMember .digit 48 = true := digit_member 48 (by omega)
-  simp [stripColor, List.takeWhile, List.dropWhile, h48, not_digit_109]
+theorem strip_reset (fuel : Nat) (s : Str) : stripColor (fuel + 1) (27 :: 91 :: 48 :: 109 :: s) = stripColor fuel s :=
+  ColorBasic.strip_reset fuel s
 
 /-- **C15 (opening codes)** the stripper removes the opening sequence of every generated colour -/
 theorem strip_open (fuel : Nat) (s : Str) (code : Str) (h : code ∈ genCodes) :
-    stripColor (fuel + 1) ([27, 91] ++ code ++ 109 :: s) = stripColor fuel s := by
-  have d := fun c h => digit_member c h
-  simp only [genCodes, List.mem_cons, List.mem_nil_iff, or_false] at h
-  rcases h with rfl | rfl | rfl | rfl | rfl | rfl | rfl | rfl <;>
-    simp [stripColor, List.takeWhile, List.dropWhile, Gen.colBlackOnBrightYellow, Gen.colBrightYellowOnBlack,
-      Gen.colCyanBold, Gen.colGreenBold, Gen.colPurpleBold, Gen.colRedBold, Gen.colWhiteOnBrightBlue,
-      Gen.colYellowBold, d 48 (by omega), d 49 (by omega), d 50 (by omega), d 51 (by omega), d 52 (by omega),
-      d 53 (by omega), d 54 (by omega), d 55 (by omega), d 57 (by omega), not_digit_59, not_digit_109]
+    stripColor (fuel + 1) ([27, 91] ++ code ++ 109 :: s) = stripColor fuel s := ColorBasic.strip_open fuel s code h
 
 /-- text that is not an escape character is kept -/
-theorem strip_other (fuel c : Nat) (s : Str) (h : c ≠ 27) : stripColor (fuel + 1) (c :: s) = c :: stripColor fuel s := by
-  rw [stripColor]
-  intro r hc _
-  exact absurd hc h
+theorem strip_other (fuel c : Nat) (s : Str) (h : c ≠ 27) : stripColor (fuel + 1) (c :: s) = c :: stripColor fuel s :=
+  ColorBasic.strip_other fuel c s h
 
 /-- `[` is among the characters the literal printer escapes (generated `CHARS_TO_ESCAPE`) and among
 those the class printer escapes, so text can never complete `ESC [` on its own -/
 theorem bracket_always_escaped : Gen.charsToEscape.contains 91 = true ∧ Gen.classEscapeChars.contains 91 = true := by decide
+
+/-- the relation between highlighted and plain text that the printer maintains: the highlighted text is the plain
+text with complete SGR sequences inserted, and no `ESC` of the plain text is directly followed by `[` -/
+theorem stripping_removes_inserted_codes {C T : Str} (h : Col C T) (fuel : Nat) (hf : C.length ≤ fuel) :
+    stripColor fuel C = T := h.strip fuel hf
+
+/-- every `[` a literal prints is escaped — also after `-e` escaping of the non-ASCII characters — so a literal
+`ESC` in a test case can never start a sequence -/
+theorem literal_brackets_escaped (cfg : Config) (s : Str) :
+    Safe91 (if cfg.esc then (escapeSymbols s).flatMap (fun c => Expr.escapeChar c cfg.sur) else escapeSymbols s) :=
+  escaped_chars_safe cfg s
+
+/-- **C15 (whole pattern, every setting but verbose)** removing the SGR sequences from the highlighted output
+yields exactly the output produced without highlighting: for every expression (including counted repetitions and
+shorthand classes), with or without capturing groups, escaping, surrogates, case-insensitivity, either anchor -/
+theorem strip_colored (cfg : Config) (hv : cfg.verb = false) (e : Expr) (fuel : Nat)
+    (hf : (fmtRegExp (withColor cfg true) e).length ≤ fuel) :
+    stripColor fuel (fmtRegExp (withColor cfg true) e) = fmtRegExp (withColor cfg false) e :=
+  Grexv.strip_colored cfg hv e fuel hf
+
+/-- **C15 (highlighting is invisible to `RegExp::from`)** all stages and the expression kept are the same with and
+without highlighting, for every other setting including verbose mode: the self-check strips the codes first -/
+theorem run_independent_of_highlighting (cfg : Config) (env : Env) (ws : List Str) :
+    regExpFrom (withColor cfg true) env ws = regExpFrom (withColor cfg false) env ws := regExpFrom_color cfg env ws
+
+/-- **C15 for the model, all inputs, every setting but verbose** the highlighted output of a run, with its SGR
+sequences removed, is exactly the output of the same run without highlighting -/
+theorem output_strips_to_plain (cfg : Config) (hv : cfg.verb = false) (env : Env) (ws : List Str) (stT stF : Stages)
+    (hT : regExpFrom (withColor cfg true) env ws = .ok stT) (hF : regExpFrom (withColor cfg false) env ws = .ok stF) :
+    stripColor ((fmtRegExp (withColor cfg true) stT.finalAst).length) (fmtRegExp (withColor cfg true) stT.finalAst) =
+      fmtRegExp (withColor cfg false) stF.finalAst := by
+  rw [regExpFrom_color, hF] at hT
+  injection hT with hT
+  subst hT
+  exact Grexv.strip_colored cfg hv _ _ (Nat.le_refl _)
 
 /-! non-vacuity: a coloured caret strips to the caret -/
 example : stripColor 40 (Comp.caret true false) = [94] := by decide +kernel
